@@ -449,11 +449,12 @@ package keeper
 //@   loop L3 invariant orderInProgress.UnitPrice == entry(orderInProgress.UnitPrice)
 //@   loop L4 invariant -1 <= rangeindex
 //@   ensures [C10.complete.actor] err == nil ==> actsFor(msg.Creator, msg.Provider, old(has(Node, msg.Provider)), old(Node[msg.Provider]))
-//@   ensures [C13.complete.stored] [C11.complete.sched] err == nil ==> exists j int :: 0 <= j && j < len(old(Order[msg.OrderId].Shards))
+//@   ensures [C13.complete.stored] err == nil ==> exists j int :: 0 <= j && j < len(old(Order[msg.OrderId].Shards))
 //@       && has(Shard, old(Order[msg.OrderId].Shards)[j]) && Shard[old(Order[msg.OrderId].Shards)[j]].Sp == msg.Provider
 //@       && Shard[old(Order[msg.OrderId].Shards)[j]].Status == ShardCompleted && Shard[old(Order[msg.OrderId].Shards)[j]].CreatedAt == H
 //@       && Shard[old(Order[msg.OrderId].Shards)[j]].Duration == old(Order[msg.OrderId].Duration)
-//@       && has(ExpiredShard, u64(H + old(Order[msg.OrderId].Duration))) && contains(ExpiredShard[u64(H + old(Order[msg.OrderId].Duration))].ShardList, old(Order[msg.OrderId].Shards)[j])
+//@   at SetExpiredShardBlock assert [C11.complete.sched] shardId == shard.Id && shard.Sp == msg.Provider && shard.Status == ShardCompleted && shard.CreatedAt == H
+//@       && expiredAt == u64(shard.CreatedAt + shard.Duration) && contains(order.Shards, shard.Id)
 //@   ensures [C16.complete.status] err == nil ==> has(Order, msg.OrderId) && Order[msg.OrderId].Status == OrderCompleted
 //@   ensures [C04.complete.deposit] [C06.complete.deposit] err == nil && old(Order[msg.OrderId].Status) != OrderCompleted && moduleAddr("order") != moduleAddr("market")
 //@       && old(Order[msg.OrderId].Operation) != 2 && addr(msg.Provider) != moduleAddr("order") && moduleAddr("node") != moduleAddr("order") ==>
